@@ -2,28 +2,54 @@
 (* model B for C03: what the real encoders / decoders / stream functions / hex and SQL wrappers did on a
    geometry of the model, decided against the reference encoder Enc and the reference decoder Decode. *)
 EXTENDS WKB, Json, IOUtils
+FG == INSTANCE FlatGeom
 Recs == ndJsonDeserialize(IOEnv.TRACEFILE)
 Min2(a, c) == IF a <= c THEN a ELSE c
 DFlavor(f) == IF f = "ewkb" THEN "ewkb" ELSE "wkb"
 Nibbles(bs) == Cat([i \in DOMAIN bs |-> <<bs[i] \div 16, bs[i] % 16>>])
 WrapOf(t) == t                                  \* wrapper names equal type names; "ANY" accepts everything
 
+\* every geometry a decoder handed out in this case (Read, Unmarshal, hex Decode, Scan), as the Go API shows it
+IllFormed(r) == \E k \in DOMAIN r.wf : ~(r.wf[k].k \in FG!Kinds /\ FG!WellFormedObj(r.wf[k]))
+\* the geometry has no encoding and Marshal refused it: every other encoder (stream, hex, Value of a directly populated
+\* wrapper) must not panic, and must refuse too or hand out bytes that decode back to the geometry
+Refused(r, canon) ==
+  IF \E k \in DOMAIN r.ne : r.ne[k].ev # "ok" THEN "panic-on-unencodable"
+  ELSE IF \E k \in DOMAIN r.ne : r.ne[k].ok /\ ~(r.ne[k].dec.ok /\ r.ne[k].dec.g = canon) THEN "encoded-the-unencodable"
+  ELSE "ok"
+\* a source that is not a byte slice (nil, a string, an integer): no panic; refused, taken as NULL, or a geometry (then in r.wf)
+OtherSrc(v) == v \in {"error", "null", "geom"}
+SqlEntry(e, g, ndr, digest) ==
+  /\ OtherSrc(e.str) /\ OtherSrc(e.int) /\ OtherSrc(e.nil)
+  /\ IF e.w = "ANY" \/ e.w = g.t
+     THEN /\ e.scan = "none" /\ e.valok /\ e.val = ndr /\ e.d = digest            \* the NDR encoding is accepted ...
+          /\ e.xscan = "none" /\ e.xvalok /\ e.xval = ndr /\ e.xd = digest        \* ... and so is the XDR encoding
+     ELSE e.scan = "wrongtype" /\ e.xscan = "wrongtype"
+
 Clause(r) ==
   LET g == r.case.g  fl == r.case.flavor
       sym == Enc(g, r.case.order, fl)
-      want == Concrete(sym, r.img)
-      n == Len(want)
+      \* member SRIDs in EWKB are left open (see WKB!StripM): the bytes are then judged by what the reference DECODER
+      \* reads from them, and the stream / hex / SQL variants by their agreement with Marshal
+      open == fl = "ewkb" /\ HasMemberSrid(g)
       canon == Canon(g, fl)
-      ndr == Concrete(Enc(g, "NDR", fl), r.img) IN
+      M(x) == IF open THEN StripM(x) ELSE x
+      want == IF open THEN r.enc.bytes ELSE Concrete(sym, r.img)
+      n == Len(want)
+      ndr == IF open THEN r.ndr ELSE Concrete(Enc(g, "NDR", fl), r.img)
+      RefReads(bs) == LET d == Decode(bs, DFlavor(fl), fl = "wkbnan", <<-1, -1, -1>>) IN
+                      d.ok /\ d.pos = Len(bs) /\ M(d.g) = ConcG(canon, r.img) IN
   CASE r.ev # "ok" -> r.ev
-    [] sym = <<>> -> (IF r.enc.ok THEN "encoded-the-unencodable" ELSE "ok")
-    [] ~r.enc.ok -> "encode-error"
+    [] IllFormed(r) -> "ill-formed-result"
+    [] sym = <<>> -> (IF ~r.enc.ok THEN Refused(r, canon)
+                     ELSE IF r.dec.ok /\ r.dec.g = canon THEN "ok" ELSE "encoded-the-unencodable")
+    [] ~r.enc.ok -> (IF open THEN "ok" ELSE "encode-error")          \* (open: whether such a geometry is encodable at all)
     [] r.enc.bytes # want -> "bytes-differ"
     [] ~r.dec.ok -> "decode-error:" \o r.dec.err
-    [] r.dec.g # canon -> "decode-differs"
+    [] M(r.dec.g) # canon -> "decode-differs"
     [] r.dec.consumed # n -> "decode-consumed"
-    [] LET d == Decode(want, DFlavor(fl), fl = "wkbnan", <<-1, -1, -1>>) IN
-       ~(d.ok /\ d.pos = n /\ d.g = ConcG(canon, r.img)) -> "reference-decoder-disagrees"
+    [] ~RefReads(want) -> (IF open THEN "bytes-differ:member-srid" ELSE "reference-decoder-disagrees")
+    [] open /\ ~RefReads(ndr) -> "bytes-differ:member-srid"
     [] \E k \in DOMAIN r.wr : r.wr[k].err # (r.wr[k].f < n) -> "writer-error-not-reported"
     [] \E k \in DOMAIN r.wr : r.wr[k].n # Min2(r.wr[k].f, n) -> "writer-byte-count"
     [] \E k \in DOMAIN r.wrs : r.wrs[k].bytes # SubSeq(want, 1, Min2(r.wrs[k].f, n)) -> "writer-not-a-prefix"
@@ -36,11 +62,9 @@ Clause(r) ==
     \* (the letter case of the hex digits is not prescribed: both cases must DEcode, next clause)
     [] ~(r.hex.ok /\ r.hex.nib = Nibbles(want)) -> "hex-encode"
     [] r.hex.dlow # r.digest \/ r.hex.dup # r.digest -> "hex-decode"
-    [] \E k \in DOMAIN r.sql : LET e == r.sql[k] IN
-          \/ e.str # "error"
-          \/ (IF e.w = "ANY" \/ e.w = g.t
-              THEN ~(e.scan = "none" /\ e.valok /\ e.val = ndr)
-              ELSE e.scan # "wrongtype") -> "sql-wrapper"
+    [] \E k \in DOMAIN r.sql : ~SqlEntry(r.sql[k], g, ndr, r.digest) -> "sql-wrapper"
+    \* Value() of a wrapper populated directly (not by Scan) is the NDR encoding too
+    [] \E k \in DOMAIN r.sqlv : ~(r.sqlv[k].ev = "ok" /\ r.sqlv[k].ok /\ r.sqlv[k].val = ndr) -> "sql-value"
     [] OTHER -> "ok"
 VARIABLES i, bad
 Init == i = 1 /\ bad = 0
